@@ -303,7 +303,7 @@ def judge_smtp(cfg, env, outcome, captured, info):
     for r, v in (outcome[1] or {}).items() if isinstance(outcome[1], dict) else []:
         if isinstance(v, Reply) and v.code != '250':
             out.append((dict(base, kind='reported-reply-differs'), desc))
-    if info['client_exts'] is not None and info['server_exts'] is not None and not cfg.get('tls') and not cfg.get('helo'):
+    if info['client_exts'] is not None and info['server_exts'] is not None and not cfg.get('helo'):
         ce = set(info['client_exts'])
         se = set(info['server_exts'])
         if ce != se:
